@@ -89,7 +89,8 @@ def handler : Handler := fun op j =>
   | "frag.reasm" => do
     let node ← eid? (← getObj? j "node")
     let evs ← (← getArr? j "events").toList.mapM ev?
-    let cfg : RCfg := { nodeId := node, deliver := fun _ => (getBool? j "deliver").getD true, crcOk := fun _ => true }
+    let cfg : RCfg := { nodeId := node, deliver := fun _ => (getBool? j "deliver").getD true, crcOk := fun _ => true,
+                        crcFn := zeroCrc }
     let (s, tr) := reasmTrace cfg AState.init evs []
     some (jobj [("trace", jarr tr), ("delivered", jarr (s.delivered.map fun b => jhex b.enc))])
   | "frag.cover" => do
